@@ -101,6 +101,14 @@ def cells(tier):
     for fn in ("stack", "concatenate", "where", "add_sequence"):
         for kinds in (("pyfloat", "npf32"), ("npf32", "pyfloat"), ("pyint", "f32arr"), ("f32arr", "pyfloat"), ("i8arr", "pyint"), ("pyfloat", "pyint")):
             yield ("SQ", fn, kinds)
+    # Python scalars that are not representable in the tensor's dtype, equal (after rounding to that dtype) to one of its elements:
+    # NEP 50 compares / combines in the array's dtype; the non-differentiable ufuncs and the comparison operators go through other code than _op
+    for fn in ("equal", "not_equal", "less", "less_equal", "greater", "greater_equal", "logical_and", "logical_or", "logical_xor",
+               "floor_divide", "remainder", "fmod", "isclose", "allclose"):
+        for dt in ("float32", "float16", "float64", "int8"):
+            for sc in ("0.1", "1.1", "3", "True", "300"):
+                for form in ("np", "mg", "operator", "reflected"):
+                    yield ("W", fn, dt, sc, form)
     RED = ["sum", "mean", "prod", "var", "std", "max", "min", "cumsum", "cumprod", "any", "argmax", "argmin"]
     for r in RED:
         for dt in DTYPES:
@@ -343,6 +351,25 @@ def check(cell):
             return a
 
         return compare(aug_mg, aug_np, None)
+    if kind == "W":
+        _, fn, dt, sc, form = cell
+        scv = {"0.1": 0.1, "1.1": 1.1, "3": 3, "True": True, "300": 300}[sc]
+        x = np.array([0.1, 1.1, 3.0, 1.0, 0.0, 44.0]).astype(dt)
+        npf = getattr(np, fn)
+        opf = {"equal": operator.eq, "not_equal": operator.ne, "less": operator.lt, "less_equal": operator.le, "greater": operator.gt, "greater_equal": operator.ge,
+               "floor_divide": operator.floordiv}.get(fn)
+        Tc = lambda a: mg.tensor(a, constant=True)  # (the rounding family accepts constants only)
+        if form == "np":
+            return compare(lambda: npf(Tc(x), scv), lambda: npf(x, scv), lambda: npf(Tc(x), scv))
+        if form == "mg":
+            if not hasattr(mg, fn):
+                return ("skip", "no mygrad function of that name")
+            return compare(lambda: getattr(mg, fn)(Tc(x), scv), lambda: npf(x, scv), None)
+        if opf is None:
+            return ("skip", "no operator for this function")
+        if form == "operator":
+            return compare(lambda: opf(Tc(x), scv), lambda: opf(x, scv), None)
+        return compare(lambda: opf(scv, Tc(x)), lambda: opf(scv, x), None)
     if kind == "SEQ":
         _, b, d1, ka, kb = cell
         x = arr((3,), d1, 1)
@@ -418,7 +445,7 @@ def outcome(cell):
 
 
 def signature(cell, f):
-    return base.stable_hash((cell[0], cell[1] if cell[0] in ("U", "B", "O", "O1", "R", "SEQ", "SQ") else (cell[4] if cell[0] == "P" else ""), f[0], f[1][:24]))
+    return base.stable_hash((cell[0], cell[1] if cell[0] in ("U", "B", "O", "O1", "R", "SEQ", "SQ", "W") else (cell[4] if cell[0] == "P" else ""), f[0], f[1][:24]))
 
 
 def script(cell, f):
